@@ -100,6 +100,9 @@ def run_catalogue(ctx, binary):
             # the only optional-free expression of the entry is the read of a field whose declared type is PLAIN: the nil
             # it meets is the field the constructor never assigned (nil is otherwise admissible: the general judge is silent)
             finds = finds + [("plain-field-is-nil", "a field declared with a non-optional type was never assigned by the constructor and reads as nil: %s" % res.msg[:120])]
+        if e.get("cls") in c02_catalogue.PLAIN_OBSERVATIONS:
+            for oid, ts in c02_check.plain_nil_observations(res):
+                finds = finds + [("plain-type-holds-nil", "observation o%d: typeof reports the plain type `%s` but the value is nil" % (oid, ts))]
         for cls, what in finds:
             ctx.report(e.get("cls") or "catalogue:" + e["name"], "boundary case `%s`: %s" % (e["name"], what),
                        {"entry": e["name"], "program": e["src"], "other_files": e.get("files") or {}, "observed": res.brief(),
